@@ -206,7 +206,7 @@ func Drive(e Engine, o DriverOpts) int {
 			cmd.Stdout, cmd.Stderr = so, se
 			cmd.Env = append(os.Environ(), "VERIF_WORKER=1")
 			if race {
-				cmd.Env = append(cmd.Env, "GORACE=halt_on_error=0 history_size=2 log_path="+filepath.Join(runDir, fmt.Sprintf("race.w%02d.p%03d", w, part)))
+				cmd.Env = append(cmd.Env, "GORACE=halt_on_error=0 exitcode=0 history_size=2 log_path="+filepath.Join(runDir, fmt.Sprintf("race.w%02d.p%03d", w, part)))
 			}
 			if err := cmd.Start(); err != nil {
 				addInconcl("cannot start worker: " + err.Error())
